@@ -34,7 +34,7 @@ pub enum Case {
 }
 
 /// remove every occurrence of the pattern (keeps the junk precondition by construction)
-fn scrub(mut j: Vec<u8>) -> Vec<u8> {
+pub fn scrub(mut j: Vec<u8>) -> Vec<u8> {
     while let Some(k) = refcodec::find_pattern(&j) {
         j[k + 3] = 0x02;
     }
